@@ -9,23 +9,25 @@
 EXTENDS Hls, IOUtils
 
 Trace == ndJsonDeserialize(IOEnv.TRACE)
-VARIABLES l, l0, sc, failed
-tvars == <<S, l, l0, sc, failed>>
+VARIABLES l, l0, sc, failed,
+          soft     \* a playlist was written whose content is not the model's: the observed content is adopted, the
+                   \* properties go on judging it, and the scenario is refused at its end at the latest
+tvars == <<S, l, l0, sc, failed, soft>>
 
 DummyCfg == [n |-> 1, d |-> 0, f |-> 1000, mode |-> 0]
-TraceInit == S = Init0(DummyCfg, TRUE) /\ l = 1 /\ l0 = 1 /\ sc = 0 /\ failed = FALSE /\ TLCSet(1, 1)
+TraceInit == S = Init0(DummyCfg, TRUE) /\ l = 1 /\ l0 = 1 /\ sc = 0 /\ failed = FALSE /\ soft = <<>> /\ TLCSet(1, 1)
 IsEvent(e) == l <= Len(Trace) /\ Trace[l].ev = e /\ l' = l + 1
 
 Reject(why) == /\ failed' = TRUE
                /\ IF failed THEN TRUE
                   ELSE /\ PrintT("@REJ@" \o ToString(l))
                        /\ PrintT("@WHY@" \o ToJson([sc |-> sc, line |-> l - l0, why |-> why]))
-               /\ UNCHANGED <<S, l0, sc>>
-Accepting(s2) == S' = s2 /\ failed' = FALSE /\ UNCHANGED <<l0, sc>>
+               /\ UNCHANGED <<S, l0, sc, soft>>
+Accepting(s2) == S' = s2 /\ failed' = FALSE /\ UNCHANGED <<l0, sc, soft>>
 
 TraceReset ==
   /\ IsEvent("reset")
-  /\ S' = Init0(Trace[l].cfg, Trace[l].av) /\ l0' = l /\ sc' = Trace[l].sc /\ failed' = FALSE
+  /\ S' = Init0(Trace[l].cfg, Trace[l].av) /\ l0' = l /\ sc' = Trace[l].sc /\ failed' = FALSE /\ soft' = <<>>
 
 \* a call on the muxer: everything the model queued for the previous call must have been observed
 Call(ok, s2) ==
@@ -40,7 +42,9 @@ ObservedBase == IF l < Len(Trace) /\ Trace[l+1].ev = "op" /\ Trace[l+1].o = "cre
 TraceFeed == IsEvent("feed") /\ Call(S.phase = "live", FeedStep(S, Trace[l].fr, ObservedBase))
 TraceStop == IsEvent("stop") /\ Call(S.phase = "live", StopStep(S))
 TraceRestart == IsEvent("restart") /\ Call(S.phase = "stopped", RestartStep(S))
-TraceEnd == IsEvent("end") /\ (IF ~failed /\ S.pend = <<>> /\ Broken(S) # <<>> THEN Reject(Broken(S)) ELSE Call(TRUE, S))
+TraceEnd == IsEvent("end") /\ (IF ~failed /\ S.pend = <<>> /\ Broken(S) # <<>> THEN Reject(Broken(S))
+                               ELSE IF ~failed /\ S.pend = <<>> /\ soft # <<>> THEN Reject(soft)
+                               ELSE Call(TRUE, S))
 TracePanic == IsEvent("panic") /\ (IF failed THEN Reject(<<>>) ELSE Reject(<<"Panic">>))
 
 ToSet(s) == {s[i] : i \in 1..Len(s)}
@@ -74,6 +78,11 @@ TraceOp ==
        IN IF OpId(op) # [o |-> e.o, k |-> e.k, t |-> e.t, p |-> e.p, to |-> e.to]
             THEN Reject(Broken(Generic(e)) \o <<"Op:mismatch:" \o e.o \o ":" \o e.k \o ":expected:" \o op.o \o ":" \o op.k>>)
           ELSE IF e.err THEN Reject(<<"Op:error:" \o e.o \o ":" \o e.k>>)
+          ELSE IF ~same /\ e.k = "pl" /\ e.o = "write" THEN
+                 LET s3 == [Generic(e) EXCEPT !.pend = Tail(@)]
+                 IN IF Broken(s3) # <<>> THEN Reject(Broken(s3) \o <<"Content:write:" \o e.p>>)
+                    ELSE /\ S' = s3 /\ failed' = FALSE /\ UNCHANGED <<l0, sc>>
+                         /\ soft' = IF soft = <<>> THEN <<"Content:write:" \o e.p>> ELSE soft
           ELSE IF ~same THEN Reject(<<"Content:" \o e.o \o ":" \o (IF e.k = "ts" THEN "ts" ELSE e.p)>>)
           ELSE IF ~dir THEN Reject(<<"Dir:" \o e.o \o ":" \o e.k>>)
           ELSE IF Broken(s2) # <<>> THEN Reject(Broken(s2))
